@@ -8,12 +8,12 @@ TRUSTED = [
 UNVERIFIED = [
     'PARTIAL: proved are path validation at creation (validate_path: distinct valid markets, every step flips between the two pool tokens of its market, no no-op steps, the walk ends in the declared output token, the stored path is the market tokens in order) and execution of a path (swap_along_the_path: exactly the declared markets in order, each hop converting the previous output token, and the amount recorded OUT of market j being the amount recorded INTO market j+1, same token)',
     'ASSUMED: the swap of one market (C04 / C05) and RevertibleMarket::record_transferred_in / _out (C22) - here a record is a log entry; that the recorded balance moves by exactly that amount is C22',
-    'the duplicate check at execution (SwapActionParams::validated_primary / secondary_swap_path: an iterator `all` over a HashSet) is not under contract: it is the stated precondition of swap_along_the_path, and its two call sites in revertible_swap are text anchors; revertible_swap / revertible_swap_for_one_side (the transfers between the current market and the first / last market of a path, both directions) and validate_and_init (lengths, token set) are not under contract',
+    'the duplicate check at execution IS under contract: SwapActionParams::validated_primary_swap_path / validated_secondary_swap_path hand the path out exactly when no market token occurs twice in it (rule R23, logged: `p.iter().all(move |t| seen.insert(t))` visits p front to back and stops at the first false - written as an indexed loop with early exit; HashSet<&Pubkey> as the key-set carrier); that revertible_swap takes its paths from these two functions is a text anchor; revertible_swap / revertible_swap_for_one_side (the transfers between the current market and the first / last market of a path, both directions) and validate_and_init (lengths, token set) are not under contract',
 ]
 ASSUMPTIONS = ['the path handed to swap_along_the_path has unique market tokens (checked by validated_*_swap_path at its call sites)']
 MANIFEST = dict(engine='verus',
-    technique='Verus contracts on validate_path and SwapMarkets::swap_along_the_path (whole bodies, loops with invariants over a spec map of markets with ghost record logs and a ghost trace of hop amounts), MarketMeta::{to_token_side, opposite_token}, extracted from /repo each run onto carriers',
-    text='Deductive proof, unbounded over paths of any length, all market sets and all amounts: an accepted path consists of distinct valid market accounts, every step turns the current token into the OTHER pool token of its market (a market whose two pool tokens coincide is rejected), the walk from the input token ends in the declared output token, and the stored path is the market tokens in order. Executing a path uses exactly the declared markets in order, hop j converting the token hop j-1 produced; the amount that leaves market j is recorded out of it and the same amount of the same token is recorded into market j+1; nothing is recorded into the first market nor out of the last; an empty path is a no-op.',
+    technique='Verus contracts on SwapActionParams::validated_{primary,secondary}_swap_path (duplicate check at execution), on validate_path and SwapMarkets::swap_along_the_path (whole bodies, loops with invariants over a spec map of markets with ghost record logs and a ghost trace of hop amounts), MarketMeta::{to_token_side, opposite_token}, extracted from /repo each run onto carriers',
+    text='Deductive proof, unbounded over paths of any length, all market sets and all amounts: an accepted path consists of distinct valid market accounts, every step turns the current token into the OTHER pool token of its market (a market whose two pool tokens coincide is rejected), the walk from the input token ends in the declared output token, and the stored path is the market tokens in order. Executing a path uses exactly the declared markets in order, hop j converting the token hop j-1 produced; the amount that leaves market j is recorded out of it and the same amount of the same token is recorded into market j+1; nothing is recorded into the first market nor out of the last; an empty path is a no-op. At execution a stored path is handed out exactly when it holds no market token twice.',
     note='Partial: the per-market swap and the balance records are assumed (C04 / C05 / C22); the surrounding revertible_swap plumbing and the duplicate check at execution are listed as not covered.')
 
 
